@@ -19,6 +19,9 @@ import (
 // applied-index db) on `dir`, real mempool, and the fields Start()/run() would set.
 type VerifNode struct {
 	N *Node
+	// the raft hard state as far as this replica decides it (term it is in, candidate it voted for): read from the durable
+	// storage when the node is built, as raft does on a restart
+	Term, Vote uint64
 }
 
 func VerifNewNode(dir string, lastExec uint64, snapCount uint64, logger logrus.FieldLogger) (*VerifNode, error) {
@@ -53,7 +56,31 @@ func VerifNewNode(dir string, lastExec uint64, snapCount uint64, logger logrus.F
 	n.confState = snap.Metadata.ConfState
 	n.snapshotIndex = snap.Metadata.Index
 	n.appliedIndex = snap.Metadata.Index
-	return &VerifNode{N: n}, nil
+	hs, _, err := n.raftStorage.ram.InitialState()
+	if err != nil {
+		return nil, err
+	}
+	v := &VerifNode{N: n, Term: hs.Term, Vote: hs.Vote}
+	if v.Term == 0 {
+		v.Term = 1
+	}
+	return v, nil
+}
+
+// StoreHardState is a Ready that carries neither entries nor a snapshot: the replica moved to a (higher) term and / or
+// granted its vote, and the commit index may have moved
+func (v *VerifNode) StoreHardState(term, vote, commit uint64) error {
+	v.Term, v.Vote = term, vote
+	return v.N.raftStorage.Store(nil, raftpb.HardState{Term: term, Vote: vote, Commit: commit}, raftpb.Snapshot{})
+}
+
+// HardState is what the storage hands to raft when a node starts from it
+func (v *VerifNode) HardState() (term, vote, commit uint64) {
+	hs, _, err := v.N.raftStorage.ram.InitialState()
+	if err != nil {
+		return 0, 0, 0
+	}
+	return hs.Term, hs.Vote, hs.Commit
 }
 
 func (v *VerifNode) Close() {
@@ -66,7 +93,7 @@ func (v *VerifNode) Close() {
 func (v *VerifNode) Ready(ents []raftpb.Entry, store bool) []uint64 {
 	n := v.N
 	if store && len(ents) > 0 {
-		hs := raftpb.HardState{Term: 1, Commit: ents[len(ents)-1].Index}
+		hs := raftpb.HardState{Term: v.Term, Vote: v.Vote, Commit: ents[len(ents)-1].Index}
 		if err := n.raftStorage.Store(ents, hs, raftpb.Snapshot{}); err != nil {
 			panic(err)
 		}
@@ -159,7 +186,7 @@ func (v *VerifNode) InstallSnapshot(idx, height, ledger uint64) ([]uint64, error
 		return nil, err
 	}
 	snap := raftpb.Snapshot{Data: data, Metadata: raftpb.SnapshotMetadata{Index: idx, Term: 1, ConfState: n.confState}}
-	if err := n.raftStorage.Store(nil, raftpb.HardState{Term: 1, Commit: idx}, snap); err != nil {
+	if err := n.raftStorage.Store(nil, raftpb.HardState{Term: v.Term, Vote: v.Vote, Commit: idx}, snap); err != nil {
 		return nil, err
 	}
 	n.getChainMetaFunc = func() *pb.ChainMeta { return &pb.ChainMeta{Height: ledger, BlockHash: &types.Hash{}} }
